@@ -354,6 +354,57 @@ def h_mdachain(ctx, cfg):
 
 
 # ------------------------------------------------------------------------------------------------
+# (1b) graph with two coupling outputs per discipline
+# ------------------------------------------------------------------------------------------------
+def h_graph2(ctx, cfg):
+    """Discipline i produces y{i} (consumed per e_ij, self-loops included) AND w{i} (consumed per g_ij, j != i): a variable may
+    then flow from one cyclic group to another one without being consumed in its own group.  Strong couplings are the variables
+    produced and consumed inside one and the same strongly connected group (the coupling sets "implied by the graph")."""
+    from gemseo.core.coupling_structure import CouplingStructure
+
+    n = cfg["n"]
+    E = _adjacency(ctx, n, cfg)
+    wsrc = cfg.get("w_sources", list(range(n)))
+    fixed = cfg.get("fixed", {})
+    G = [[False] * n for _ in range(n)]
+    for i in wsrc:
+        for j in range(n):
+            if i != j:
+                key = f"g{i}{j}"
+                G[i][j] = bool(fixed[key]) if key in fixed else ctx.flag(key)
+    ins = [[f"x{j}"] + [f"y{i}" for i in range(n) if E[i][j]] + [f"w{i}" for i in range(n) if G[i][j]] for j in range(n)]
+    outs = [[f"y{j}", f"w{j}"] for j in range(n)]
+    GraphDisc = _classes()["GraphDisc"]
+    discs = [GraphDisc(f"D{j}", ins[j], outs[j]) for j in range(n)]
+    A = [[E[i][j] or G[i][j] for j in range(n)] for i in range(n)]
+    R = _reach(n, A)
+    cs = CouplingStructure(discs)
+    where = _locate(ctx, cs.sequence, discs, "sequence")
+    if where is not None:
+        st = [w[0][0] for w in where]
+        gr = [w[0][:2] for w in where]
+        for i in range(n):
+            for j in range(i + 1, n):
+                ctx.check(f"sequence: {i} and {j} share a group iff mutually dependent", _b(ctx, (gr[i] == gr[j]) == _same_group(R, i, j)))
+        for i in range(n):
+            for j in range(n):
+                if i != j and A[i][j] and not _same_group(R, i, j):
+                    ctx.check(f"sequence: producer {i} in a strictly earlier stage than consumer {j}", _b(ctx, st[i] < st[j]))
+    want = set()
+    for i in range(n):
+        on_cycle = E[i][i] or any(j != i and _same_group(R, i, j) for j in range(n))
+        if not on_cycle:
+            continue
+        if any(E[i][j] for j in range(n) if _same_group(R, i, j)):
+            want.add(f"y{i}")
+        if any(G[i][j] for j in range(n) if j != i and _same_group(R, i, j)):
+            want.add(f"w{i}")
+    got = set(cs.strong_couplings)
+    ctx.check(f"strong_couplings {sorted(got)} == variables produced and consumed inside one cyclic group {sorted(want)}", _b(ctx, got == want))
+    ctx.observe("n_strong", [float(len(got))])
+
+
+# ------------------------------------------------------------------------------------------------
 # (3) composition on acyclic systems
 # ------------------------------------------------------------------------------------------------
 def h_composition(ctx, cfg):
@@ -459,6 +510,13 @@ def configs(tier):
         for fixed in _row_fixings(4):        # 16 x 4096 graphs
             for names, extra in (("distinct", True), ("dup", False)):
                 out.append(("graph", dict(n=4, names=names, extra=extra, fixed=fixed)))
+    # two coupling outputs per discipline
+    out.append(("graph2", dict(n=2)))                                  # 64 graphs
+    for fixed in _row_fixings(3):                                      # w only from discipline 0: 8 x 256 graphs
+        out.append(("graph2", dict(n=3, w_sources=[0], fixed=fixed)))
+    if tier == "thorough":
+        for fixed in _row_fixings(3):                                  # every w: 8 x 4096 graphs
+            out.append(("graph2", dict(n=3, fixed=fixed)))
     # MDA chain structure
     for n in (1, 2):
         for parallel in (False, True):
@@ -479,4 +537,4 @@ def configs(tier):
     return out
 
 
-HARNESSES = {"graph": h_graph, "mdachain": h_mdachain, "composition": h_composition}
+HARNESSES = {"graph": h_graph, "graph2": h_graph2, "mdachain": h_mdachain, "composition": h_composition}
